@@ -47,13 +47,14 @@ CLAIMED['C09'] = dict(
     technique='Lean 4 proof (fold induction over the character machine) + differential correspondence')
 CLAIMED['C19'] = dict(
     text='Lean 4 theorems (over exact rationals, any operands, any positive maximum): the number distance lies in [0, max] and is 0 only for equal numbers; the same for '
-         'datetimes, dates and timedeltas through the regenerated dispatch table; times are proved up to whole seconds (partial) with Lean negative witnesses for the '
-         'sub-second and datetime-vs-date cases. Correspondence: the real _get_numbers_distance against the exact model on ints, short decimals and Decimals. The '
+         'datetimes, dates, timedeltas and times (all four fields, microseconds included - finding F24 was repaired in /repo) through the regenerated dispatch table, with a '
+         'Lean negative witness for the datetime-vs-date case. Correspondence: the real _get_numbers_distance against the exact model on ints, short decimals and Decimals, and '
+         'get_numeric_types_distance against the typed model on datetimes, dates, timedeltas and times. The '
          'deep_distance clauses (range, 0 when equal, positive when the default diff is non-empty) are evaluated on the implementation over generated nested pairs inside '
          'the stated domain; their model (delta view + DeepHash counts) is part of the diff-model work and is not yet a theorem.',
     design='5/C19',
     note='Trusted: Lean kernel + Mathlib order/field lemmas; IEEE rounding is outside the rational model (float findings F13c/F13d). deep_distance is partial: observed, not proved. '
-         'Known findings F13a, F13b, F17a, F17b, F24, F25.',
+         'Known findings F13a, F13b, F17a, F17b, F25; F24 fixed in /repo.',
     technique='Lean 4 proof (rational arithmetic) + differential correspondence; deep_distance by evaluation inside a stated domain')
 CLAIMED['C20'] = dict(
     text='Lean 4 theorems over a file-system state machine of save_content_to_path/_save_content: for every file system, path, content and every fault point (open, '
